@@ -1,8 +1,285 @@
-(* C09 — proofs about the model (see Properties.v for the exported statements). *)
+(* C09 — the decision procedure decides the Props of Spec.v, and the model satisfies them for
+   every input (see Properties.v for the exported statements). *)
 From Coq Require Import List ZArith Bool Lia.
-From Verif Require Import C09.Model C09.Spec.
+From Verif Require Import C09.Model C09.Spec C09.Proofs_Agg C09.Proofs_Float.
 Import ListNotations.
 Open Scope Z_scope.
 
-Lemma clamp0_nonneg x : 0 <= clamp0 x.
-Proof. unfold clamp0. lia. Qed.
+(* ---------------- decision procedure <-> Prop ---------------- *)
+Lemma dim_code_range strict d x : 0 <= dim_code strict d x <= 4.
+Proof.
+  unfold dim_code.
+  destruct (x <? 0); [lia|]. destruct (_ <? x); [lia|].
+  destruct (match d_thr d with Some c => c <? x | None => false end); [lia|].
+  destruct (strict && _); lia.
+Qed.
+
+Lemma dim_code_spec strict d x : dim_code strict d x = 0 <-> dim_spec strict d x.
+Proof.
+  unfold dim_code, dim_spec, dim_ok, dim_text_ok.
+  destruct (x <? 0) eqn:E1.
+  { apply Z.ltb_lt in E1. split; [discriminate|]. intros [[H _] _]. lia. }
+  apply Z.ltb_ge in E1.
+  destruct (Z.max 0 (upper d) <? x) eqn:E2.
+  { apply Z.ltb_lt in E2. split; [discriminate|]. intros [[_ [H _]] _]. lia. }
+  apply Z.ltb_ge in E2.
+  assert (forall P : Prop, (0 <= x /\ x <= Z.max 0 (upper d) /\ P) <-> P) as Hs
+    by (intros P; split; [intros (_ & _ & H); exact H|intros H; repeat split; assumption]).
+  destruct (d_thr d) as [c|] eqn:Et.
+  - destruct (c <? x) eqn:E3.
+    { apply Z.ltb_lt in E3. split; [discriminate|]. intros [[_ [_ H]] _].
+      specialize (H c eq_refl). lia. }
+    apply Z.ltb_ge in E3.
+    assert (forall c0 : Z, Some c = Some c0 -> x <= c0) as Hc
+      by (intros c0 H0; inversion H0; subst; exact E3).
+    destruct strict; cbn [andb].
+    + destruct (Z.max 0 (upper_text d) <? x) eqn:E4.
+      { apply Z.ltb_lt in E4. split; [discriminate|]. intros [_ H]. specialize (H eq_refl). lia. }
+      apply Z.ltb_ge in E4. split; [intros _|reflexivity].
+      split; [repeat split; assumption|intros _; exact E4].
+    + split; [intros _|reflexivity]. split; [repeat split; assumption|discriminate].
+  - assert (forall c0 : Z, @None Z = Some c0 -> x <= c0) as Hc by (intros c0 H0; discriminate).
+    destruct strict; cbn [andb].
+    + destruct (Z.max 0 (upper_text d) <? x) eqn:E4.
+      { apply Z.ltb_lt in E4. split; [discriminate|]. intros [_ H]. specialize (H eq_refl). lia. }
+      apply Z.ltb_ge in E4. split; [intros _|reflexivity].
+      split; [repeat split; assumption|intros _; exact E4].
+    + split; [intros _|reflexivity]. split; [repeat split; assumption|discriminate].
+Qed.
+
+Lemma pub_code_spec strict d x : pub_code strict d x = 0 <-> pub_spec strict d x.
+Proof.
+  unfold pub_code, pub_spec. pose proof (dim_code_range strict d x) as Hr.
+  pose proof (dim_code_spec strict d x) as Hs.
+  destruct (x =? -1) eqn:E.
+  - apply Z.eqb_eq in E. split; [left; exact E|reflexivity].
+  - apply Z.eqb_neq in E. cbv zeta.
+    destruct (dim_code strict d x =? 0) eqn:E0.
+    + apply Z.eqb_eq in E0. split; [intros _; right; apply Hs; exact E0|reflexivity].
+    + apply Z.eqb_neq in E0. split; [lia|]. intros [H|H]; [contradiction|].
+      apply Hs in H. contradiction.
+Qed.
+
+Lemma zones_code_spec strict b n zs : forall i obs,
+  zones_code strict b n i zs obs = 0 <-> zones_spec strict b n i zs obs.
+Proof.
+  induction zs as [|z zs IH]; intros i obs.
+  - destruct obs; cbn; split; try reflexivity; try discriminate; try tauto.
+  - destruct obs as [|c [|m obs]]; cbn [zones_code zones_spec]; try (split; [discriminate|tauto]).
+    pose proof (dim_code_range strict (zone_cpu b n i z) c) as Hrc.
+    pose proof (dim_code_range strict (zone_mem b n i z) m) as Hrm.
+    pose proof (dim_code_spec strict (zone_cpu b n i z) c) as Hsc.
+    pose proof (dim_code_spec strict (zone_mem b n i z) m) as Hsm.
+    cbv zeta.
+    destruct (dim_code strict (zone_cpu b n i z) c =? 0) eqn:Ec; cbn [negb].
+    + apply Z.eqb_eq in Ec.
+      destruct (dim_code strict (zone_mem b n i z) m =? 0) eqn:Em; cbn [negb].
+      * apply Z.eqb_eq in Em. rewrite IH. tauto.
+      * apply Z.eqb_neq in Em. split; [lia|]. intros (_ & H & _). apply Hsm in H. contradiction.
+    + apply Z.eqb_neq in Ec. split; [lia|]. intros (H & _). apply Hsc in H. contradiction.
+Qed.
+
+Lemma eq_listZ_spec a : forall b, eq_listZ a b = true <-> a = b.
+Proof.
+  induction a as [|x a IH]; intros [|y b]; cbn; split; try reflexivity; try discriminate.
+  - intros H. apply andb_true_iff in H. destruct H as [H1 H2].
+    apply Z.eqb_eq in H1. apply IH in H2. subst. reflexivity.
+  - intros H. inversion H; subst. apply andb_true_iff. split; [apply Z.eqb_refl|apply IH; reflexivity].
+Qed.
+
+Lemma batch_code_spec strict b obs : batch_code strict b obs = 0 <-> batch_spec strict b obs.
+Proof.
+  unfold batch_code, batch_spec.
+  destruct (eq_listZ obs withdrawn) eqn:Ew.
+  { apply eq_listZ_spec in Ew. split; [left; exact Ew|reflexivity]. }
+  assert (obs <> withdrawn) as Hnw.
+  { intros H. apply eq_listZ_spec in H. rewrite H in Ew. discriminate. }
+  destruct obs as [|h [|pc [|pm [|c [|m [|nz zobs]]]]]];
+    try (split; [discriminate|]; intros [H|H]; [contradiction|];
+         destruct H as (x1 & x2 & x3 & x4 & x5 & x6 & H & _); discriminate).
+  pose proof (dim_code_range strict (node_cpu b) c) as Hrc.
+  pose proof (dim_code_range strict (node_mem b) m) as Hrm.
+  pose proof (dim_code_spec strict (node_cpu b) c) as Hsc.
+  pose proof (dim_code_spec strict (node_mem b) m) as Hsm.
+  pose proof (pub_code_spec strict (node_cpu b) pc) as Hpc.
+  pose proof (pub_code_spec strict (node_mem b) pm) as Hpm.
+  destruct (h =? 0) eqn:Eh; cbn [negb].
+  2:{ apply Z.eqb_neq in Eh. split; [discriminate|]. intros [H|H]; [contradiction|].
+      destruct H as (x1 & x2 & x3 & x4 & x5 & x6 & H & _). inversion H. lia. }
+  apply Z.eqb_eq in Eh. subst h.
+  destruct (stale b) eqn:Es.
+  { split; [discriminate|]. intros [H|H]; [contradiction|].
+    destruct H as (x1 & x2 & x3 & x4 & x5 & x6 & _ & H & _). discriminate. }
+  destruct (dim_code strict (node_cpu b) c =? 0) eqn:Ec; cbn [negb].
+  2:{ apply Z.eqb_neq in Ec. split; [intros H; contradiction|]. intros [H|H]; [contradiction|].
+      destruct H as (x1 & x2 & x3 & x4 & x5 & x6 & H & _ & H1 & _). inversion H; subst.
+      apply Hsc in H1. contradiction. }
+  apply Z.eqb_eq in Ec.
+  destruct (dim_code strict (node_mem b) m =? 0) eqn:Em; cbn [negb].
+  2:{ apply Z.eqb_neq in Em. split; [intros H; contradiction|]. intros [H|H]; [contradiction|].
+      destruct H as (x1 & x2 & x3 & x4 & x5 & x6 & H & _ & _ & H1 & _). inversion H; subst.
+      apply Hsm in H1. contradiction. }
+  apply Z.eqb_eq in Em.
+  destruct (pub_code strict (node_cpu b) pc =? 0) eqn:Epc; cbn [negb].
+  2:{ apply Z.eqb_neq in Epc. split; [intros H; contradiction|]. intros [H|H]; [contradiction|].
+      destruct H as (x1 & x2 & x3 & x4 & x5 & x6 & H & _ & _ & _ & H1 & _). inversion H; subst.
+      apply Hpc in H1. contradiction. }
+  apply Z.eqb_eq in Epc.
+  destruct (pub_code strict (node_mem b) pm =? 0) eqn:Epm; cbn [negb].
+  2:{ apply Z.eqb_neq in Epm. split; [intros H; contradiction|]. intros [H|H]; [contradiction|].
+      destruct H as (x1 & x2 & x3 & x4 & x5 & x6 & H & _ & _ & _ & _ & H1 & _). inversion H; subst.
+      apply Hpm in H1. contradiction. }
+  apply Z.eqb_eq in Epm.
+  apply Hsc in Ec. apply Hsm in Em. apply Hpc in Epc. apply Hpm in Epm.
+  destruct (nz =? 0) eqn:Enz.
+  - apply Z.eqb_eq in Enz. subst nz. destruct zobs as [|zo zobs].
+    + split; [intros _|reflexivity]. right. exists pc, pm, c, m, 0, [].
+      refine (conj eq_refl (conj eq_refl (conj Ec (conj Em (conj Epc (conj Epm _)))))).
+      left. split; reflexivity.
+    + split; [discriminate|]. intros [H|H]; [contradiction|].
+      destruct H as (x1 & x2 & x3 & x4 & x5 & x6 & H & _ & _ & _ & _ & _ & Hd).
+      injection H as _ _ _ _ E5 E6.
+      destruct Hd as [[_ H1]|[H1 H2]].
+      * rewrite H1 in E6. discriminate.
+      * rewrite <- E5 in H1. destruct (b_zones b) as [|z0 zs0]; [|cbn [length] in H1; lia].
+        rewrite <- E6 in H2. cbn in H2. contradiction.
+  - apply Z.eqb_neq in Enz.
+    destruct (nz =? Z.of_nat (length (b_zones b))) eqn:El; cbn [negb].
+    + apply Z.eqb_eq in El. rewrite zones_code_spec. split.
+      * intros Hz. right. exists pc, pm, c, m, nz, zobs.
+        refine (conj eq_refl (conj eq_refl (conj Ec (conj Em (conj Epc (conj Epm _)))))).
+        right. split; assumption.
+      * intros [H|H]; [contradiction|].
+        destruct H as (x1 & x2 & x3 & x4 & x5 & x6 & H & _ & _ & _ & _ & _ & Hd).
+        injection H as _ _ _ _ E5 E6.
+        destruct Hd as [[H1 _]|[_ H2]]; [lia|]. rewrite E6. exact H2.
+    + apply Z.eqb_neq in El. split; [discriminate|]. intros [H|H]; [contradiction|].
+      destruct H as (x1 & x2 & x3 & x4 & x5 & x6 & H & _ & _ & _ & _ & _ & Hd).
+      injection H as _ _ _ _ E5 E6.
+      destruct Hd as [[H1 _]|[H1 _]]; lia.
+Qed.
+
+(* ---------------- the model satisfies the property, for every input ---------------- *)
+Definition zone_nonneg (z : Z * Z) : bool := (0 <=? fst z) && (0 <=? snd z).
+Definition input_wf (b : binput) : bool :=
+  (0 <=? b_cap_cpu b) && (0 <=? b_cap_mem b) && forallb zone_nonneg (b_zones b).
+
+Lemma thr_nonneg_node_cpu b : 0 <= b_cap_cpu b -> thr_nonneg (node_cpu b).
+Proof. intros H c Hc. cbn in Hc. eapply thr_term_nonneg; eassumption. Qed.
+Lemma thr_nonneg_node_mem b : 0 <= b_cap_mem b -> thr_nonneg (node_mem b).
+Proof. intros H c Hc. cbn in Hc. eapply thr_term_nonneg; eassumption. Qed.
+Lemma thr_nonneg_zone_cpu b n i z : 0 <= fst z -> thr_nonneg (zone_cpu b n i z).
+Proof. intros H c Hc. cbn in Hc. eapply thr_term_nonneg; eassumption. Qed.
+Lemma thr_nonneg_zone_mem b n i z : 0 <= snd z -> thr_nonneg (zone_mem b n i z).
+Proof.
+  intros H c Hc. cbn [d_thr zone_mem] in Hc.
+  destruct (thr_term (s_mem_thr (b_s b)) (snd z)) as [c0|] eqn:E; [|discriminate].
+  assert (c = 1000 * c0) as -> by congruence. pose proof (thr_term_nonneg _ _ _ H E). lia.
+Qed.
+
+Lemma dim_spec_false d : thr_nonneg d -> dim_spec false d (batch_dim d).
+Proof. intros H. split; [apply batch_dim_ok; exact H|discriminate]. Qed.
+
+Lemma zones_out_spec b n zs : forallb zone_nonneg zs = true ->
+  forall i, zones_spec false b n i zs (zones_out b n i zs).
+Proof.
+  induction zs as [|z zs IH]; intros Hz i; cbn [zones_out zones_spec]; [exact I|].
+  cbn [forallb] in Hz. apply andb_true_iff in Hz. destruct Hz as [Hz Hzs].
+  unfold zone_nonneg in Hz. apply andb_true_iff in Hz. destruct Hz as [H1 H2].
+  apply Z.leb_le in H1. apply Z.leb_le in H2.
+  split; [apply dim_spec_false, thr_nonneg_zone_cpu; exact H1|].
+  split; [apply dim_spec_false, thr_nonneg_zone_mem; exact H2|].
+  apply IH. exact Hzs.
+Qed.
+
+Lemma input_wf_parts b : input_wf b = true ->
+  0 <= b_cap_cpu b /\ 0 <= b_cap_mem b /\ forallb zone_nonneg (b_zones b) = true.
+Proof.
+  unfold input_wf. intros H. apply andb_true_iff in H. destruct H as [H Hz].
+  apply andb_true_iff in H. destruct H as [H1 H2].
+  apply Z.leb_le in H1. apply Z.leb_le in H2. auto.
+Qed.
+
+Theorem run_batch_holds b : input_wf b = true -> C09_holds b (run_batch b).
+Proof.
+  intros Hwf. apply input_wf_parts in Hwf. destruct Hwf as (Hc & Hm & Hz).
+  unfold C09_holds, batch_spec, run_batch. fold (stale b).
+  destruct (stale b) eqn:Es; [left; reflexivity|].
+  right. eexists _, _, _, _, _, _. split; [reflexivity|].
+  split; [reflexivity|].
+  split; [apply dim_spec_false, thr_nonneg_node_cpu; exact Hc|].
+  split; [apply dim_spec_false, thr_nonneg_node_mem; exact Hm|].
+  split; [right; apply dim_spec_false, thr_nonneg_node_cpu; exact Hc|].
+  split; [right; apply dim_spec_false, thr_nonneg_node_mem; exact Hm|].
+  right. split; [reflexivity|]. apply zones_out_spec. exact Hz.
+Qed.
+
+Corollary run_batch_code b : input_wf b = true -> batch_code false b (run_batch b) = 0.
+Proof. intros H. apply batch_code_spec. apply run_batch_holds. exact H. Qed.
+
+(* stale metrics withdraw the resource *)
+Lemma run_batch_stale b : stale b = true -> run_batch b = withdrawn.
+Proof. intros H. unfold run_batch. fold (stale b). rewrite H. reflexivity. Qed.
+Lemma stale_iff b :
+  stale b = true <-> b_age b < 0 \/ s_degrade (b_s b) * 60 < b_age b.
+Proof.
+  unfold stale, is_degraded. rewrite orb_true_iff, !Z.ltb_lt. tauto.
+Qed.
+
+(* ---------------- the letter of the property text ---------------- *)
+(* holds for the CPU amount always and for the memory amount unless the request policy is
+   configured *)
+Lemma dim_spec_true d :
+  thr_nonneg d -> (d_policy d =? 2) = false -> dim_spec true d (batch_dim d).
+Proof.
+  intros H Hp. split; [apply batch_dim_ok; exact H|]. intros _. apply batch_dim_text. left. exact Hp.
+Qed.
+Lemma eff_policy_cpu_not_request p : (eff_policy_cpu p =? 2) = false.
+Proof. unfold eff_policy_cpu. destruct (p =? 3); reflexivity. Qed.
+
+Lemma zones_out_spec_text b n zs :
+  forallb zone_nonneg zs = true -> (eff_policy_mem (s_mem_policy (b_s b)) =? 2) = false ->
+  forall i, zones_spec true b n i zs (zones_out b n i zs).
+Proof.
+  intros Hz Hp. revert Hz.
+  induction zs as [|z zs IH]; intros Hz i; cbn [zones_out zones_spec]; [exact I|].
+  cbn [forallb] in Hz. apply andb_true_iff in Hz. destruct Hz as [Hz Hzs].
+  unfold zone_nonneg in Hz. apply andb_true_iff in Hz. destruct Hz as [H1 H2].
+  apply Z.leb_le in H1. apply Z.leb_le in H2.
+  split; [apply dim_spec_true; [apply thr_nonneg_zone_cpu; exact H1|apply eff_policy_cpu_not_request]|].
+  split; [apply dim_spec_true; [apply thr_nonneg_zone_mem; exact H2|exact Hp]|].
+  apply IH. exact Hzs.
+Qed.
+
+Theorem run_batch_text_holds b :
+  input_wf b = true -> (eff_policy_mem (s_mem_policy (b_s b)) =? 2) = false ->
+  C09_text_holds b (run_batch b).
+Proof.
+  intros Hwf Hp. apply input_wf_parts in Hwf. destruct Hwf as (Hc & Hm & Hz).
+  unfold C09_text_holds, batch_spec, run_batch. fold (stale b).
+  destruct (stale b) eqn:Es; [left; reflexivity|].
+  assert (dim_spec true (node_cpu b) (batch_dim (node_cpu b))) as Dc
+    by (apply dim_spec_true; [apply thr_nonneg_node_cpu; exact Hc|apply eff_policy_cpu_not_request]).
+  assert (dim_spec true (node_mem b) (batch_dim (node_mem b))) as Dm
+    by (apply dim_spec_true; [apply thr_nonneg_node_mem; exact Hm|exact Hp]).
+  right. eexists _, _, _, _, _, _. split; [reflexivity|].
+  split; [reflexivity|].
+  split; [exact Dc|]. split; [exact Dm|].
+  split; [right; exact Dc|]. split; [right; exact Dm|].
+  right. split; [reflexivity|]. apply zones_out_spec_text; assumption.
+Qed.
+
+(* ... and is violated by the model (and by the code, see findings/) when memoryCalculatePolicy
+   = "request" and system usage exceeds the node reservation: capacity 100, reclaim threshold
+   100 % (margin 0), system usage 50, no reservation, no pods -> 100 published, bound 50 *)
+Definition witness_request_sys : binput :=
+  mkB (mkStrategy 1 2 100 100 (-1) (-1) 15) 0 1000 100 1000 100 false 0 0 0 0 50 [] [] [] [].
+
+Lemma text_request_refuted :
+  input_wf witness_request_sys = true /\
+  run_batch witness_request_sys = [0; 1000; 100; 1000; 100; 0] /\
+  ~ C09_text_holds witness_request_sys (run_batch witness_request_sys).
+Proof.
+  split; [reflexivity|]. split; [vm_compute; reflexivity|].
+  intros H. apply batch_code_spec in H. vm_compute in H. discriminate.
+Qed.
